@@ -1147,3 +1147,67 @@ Proof.
   - vm_compute. reflexivity.
   - vm_compute. reflexivity.
 Qed.
+
+(** * The constructor establishes the invariant *)
+
+Lemma alloc_all_spec : forall ves h nx name u j s2 ids,
+  alloc_all (h, nx) name u ves j = (s2, ids) ->
+  ids = seq nx (length ves) /\ snd s2 = (nx + length ves)%nat /\
+  (forall i, (i < length ves)%nat ->
+     fst s2 (nx + i)%nat = mkElem (fst (nth i ves (0, 0))) (snd (nth i ves (0, 0)))
+                                  (if is_nil name then [] else idx_name name (j + i)) u) /\
+  (forall id, (id < nx)%nat -> fst s2 id = h id).
+Proof.
+  induction ves as [|[v e] ves IH]; intros h nx name u j s2 ids H; cbn [alloc_all] in H.
+  - inversion H; subst. simpl. repeat split; auto; try lia.
+  - match type of H with context [alloc_all ?a ?b ?c ?d ?e] =>
+      destruct (alloc_all a b c d e) as [s3 ids'] eqn:E end.
+    inversion H; subst. clear H.
+    destruct (IH _ _ _ _ _ _ _ E) as [I1 [I2 [I3 I4]]].
+    split; [|split; [|split]].
+    + simpl. rewrite I1. reflexivity.
+    + rewrite I2. simpl. lia.
+    + intros i Hi. destruct i as [|i].
+      * rewrite Nat.add_0_r. rewrite I4 by lia. rewrite upd_same. rewrite Nat.add_0_r. reflexivity.
+      * simpl in Hi. replace (nx + S i)%nat with (S nx + i)%nat by lia. rewrite I3 by lia.
+        replace (S j + i)%nat with (j + S i)%nat by lia. reflexivity.
+    + intros id Hid. rewrite I4 by lia. apply upd_other. lia.
+Qed.
+
+Lemma mk_array_spec : forall h nx data sp name u s2 A,
+  mk_array (h, nx) data sp name u = (s2, Ok A) ->
+  exists errs, error_array data sp = Ok errs /\
+  abs (fst s2) A = combine data errs /\ inv s2 A /\
+  named (fst s2) A name u /\ (A <> [] -> arr_name (fst s2) A = name /\ arr_unit (fst s2) A = u) /\
+  (forall id, (id < nx)%nat -> fst s2 id = h id).
+Proof.
+  intros h nx data sp name u s2 A H. unfold mk_array in H.
+  destruct (error_array data sp) as [errs|x] eqn:EA; [|discriminate].
+  destruct (alloc_all (h, nx) name u (combine data errs) 0) as [s3 ids] eqn:E.
+  inversion H; subst. clear H. exists errs. split; [reflexivity|].
+  destruct (alloc_all_spec _ _ _ _ _ _ _ _ E) as [I1 [I2 [I3 I4]]].
+  set (ves := combine data errs) in *.
+  assert (Hnth : forall i, (i < length ves)%nat -> nth i A 0%nat = (nx + i)%nat).
+  { intros i Hi. rewrite I1. apply seq_nth. exact Hi. }
+  assert (LA : length A = length ves) by (rewrite I1; apply seq_length).
+  assert (NM : named (fst s2) A name u).
+  { intros j Hj. rewrite LA in Hj. rewrite (Hnth j Hj), (I3 j Hj). simpl. split; [reflexivity|].
+    intros Hne. destruct name; [contradiction|]. reflexivity. }
+  assert (NU : A <> [] -> arr_name (fst s2) A = name /\ arr_unit (fst s2) A = u).
+  { intros NE. destruct A as [|a A']; [contradiction|].
+    assert (L0 : (0 < length ves)%nat) by (rewrite <- LA; simpl; lia).
+    pose proof (Hnth 0%nat L0) as H0. simpl in H0. simpl. rewrite H0, (I3 0%nat L0). simpl.
+    split; [|reflexivity]. destruct name; [reflexivity | apply strip_idx_name]. }
+  split; [|split; [|split; [exact NM | split; [exact NU | exact I4]]]].
+  - unfold abs. apply nth_ext with (d := (0, 0)) (d' := (0, 0)).
+    + rewrite map_length. exact LA.
+    + intros i Hi. rewrite map_length, LA in Hi.
+      rewrite (nth_indep _ (0, 0) (pair_of (fst s2) 0%nat)) by (rewrite map_length, LA; exact Hi).
+      rewrite map_nth, (Hnth i Hi). unfold pair_of. rewrite (I3 i Hi). simpl.
+      destruct (nth i ves (0, 0)); reflexivity.
+  - split; [|split].
+    + rewrite I1. apply seq_NoDup.
+    + intros id Hin. rewrite I1 in Hin. apply in_seq in Hin. rewrite I2. lia.
+    + destruct A as [|a A'] eqn:EAA; [intros j Hj; simpl in Hj; lia|].
+      destruct NU as [-> ->]; [discriminate|]. exact NM.
+Qed.
